@@ -215,75 +215,80 @@ def main(payload):
     live = LIVE        # h -> (cb, sig, cyclic)
     outs = []
     for op in payload["ops"]:
-        k = op[0]
-        if k == "create":
-            _, h, fid, sig, cyc = op
-            holder = [] if cyc else None
-            try:
-                cb = ffi.callback(SIGS[sig], make_fn(fid, sig, holder), **cb_kwargs(fid, sig))
-            except Exception as e:         # (MemoryError: the allocator is exhausted; anything else is reported too)
+        n_before = len(outs)
+        try:
+            k = op[0]
+            if k == "create":
+                _, h, fid, sig, cyc = op
+                holder = [] if cyc else None
+                try:
+                    cb = ffi.callback(SIGS[sig], make_fn(fid, sig, holder), **cb_kwargs(fid, sig))
+                except Exception as e:         # (MemoryError: the allocator is exhausted; anything else is reported too)
+                    outs.append(["err", type(e).__name__])
+                    continue
+                if cyc:
+                    holder.append(cb)          # function -> holder -> callback -> infotuple -> function
+                live[h] = (cb, sig, cyc)
+                outs.append(["addr", int(ffi.cast("uintptr_t", cb))])
+                del cb, holder                 # no stray reference from this frame
+            elif k == "fail":
+                try:
+                    ffi.callback("int(int, ...)", lambda *a: 0)
+                    outs.append(["other", "created"])
+                except NotImplementedError:
+                    outs.append(["err", "NotImplementedError"])
+            elif k == "drop":
+                cb, sig, cyc = live.pop(op[1])
+                del cb
+                if cyc:
+                    gc.collect()
+                outs.append(["none"])
+            elif k == "badcall":
+                # from C, with an argument convert_to_object rejects: the Python function must not run and the C
+                # caller gets the error value (0)
+                _, h, which = op
+                cb, sig, cyc = live[h]
+                raw = BAD_RAW[sig][which % 3]
+                try:
+                    if sig == 5:
+                        r = lib.c29_call_raw8(ffi.cast("int(*)(unsigned char)", cb), raw)
+                    else:
+                        r = lib.c29_call_raw32(ffi.cast("int(*)(unsigned int)", cb), raw)
+                    outs.append(["errval", r])
+                except Exception as e:
+                    outs.append(["err", type(e).__name__])
+                del cb
+            elif k == "selfdrop":
+                # the callback is entered FROM C through its bare address (no cdata reference on any stack) and drops
+                # itself while it runs
+                _, h, x, mode, route, new, fid = op
+                cb, sig, cyc = live[h]
+                addr = int(ffi.cast("uintptr_t", cb))
+                del cb
+                CTRL.update(fid=fid, h=h, mode=mode, new=new, ran=-1, new_addr=0)
+                sys.stderr.flush()
+                try:
+                    fp = ffi.cast("int(*)(int)", addr)
+                    r = lib.c29_call_i(fp, x) if route == "c" else fp(x)
+                    outs.append(["selfdrop", CTRL["ran"], r, CTRL["new_addr"], h in live])
+                except Exception as e:
+                    outs.append(["err", type(e).__name__])
+                CTRL["fid"] = None
+                CTRL["junk"] = None
+            elif k == "call":
+                _, h, x, route = op
+                cb, sig, cyc = live[h]
+                try:
+                    fid, exact = invoke(lib, cb, sig, x, route)
+                    outs.append(["fn", fid, exact])
+                except Exception as e:
+                    outs.append(["err", type(e).__name__])
+                del cb
+            else:
+                raise ValueError(k)
+        except Exception as e:         # (a handle the diverged implementation never created, a corrupted object, ...)
+            if len(outs) == n_before:
                 outs.append(["err", type(e).__name__])
-                continue
-            if cyc:
-                holder.append(cb)          # function -> holder -> callback -> infotuple -> function
-            live[h] = (cb, sig, cyc)
-            outs.append(["addr", int(ffi.cast("uintptr_t", cb))])
-            del cb, holder                 # no stray reference from this frame
-        elif k == "fail":
-            try:
-                ffi.callback("int(int, ...)", lambda *a: 0)
-                outs.append(["other", "created"])
-            except NotImplementedError:
-                outs.append(["err", "NotImplementedError"])
-        elif k == "drop":
-            cb, sig, cyc = live.pop(op[1])
-            del cb
-            if cyc:
-                gc.collect()
-            outs.append(["none"])
-        elif k == "badcall":
-            # from C, with an argument convert_to_object rejects: the Python function must not run and the C
-            # caller gets the error value (0)
-            _, h, which = op
-            cb, sig, cyc = live[h]
-            raw = BAD_RAW[sig][which % 3]
-            try:
-                if sig == 5:
-                    r = lib.c29_call_raw8(ffi.cast("int(*)(unsigned char)", cb), raw)
-                else:
-                    r = lib.c29_call_raw32(ffi.cast("int(*)(unsigned int)", cb), raw)
-                outs.append(["errval", r])
-            except Exception as e:
-                outs.append(["err", type(e).__name__])
-            del cb
-        elif k == "selfdrop":
-            # the callback is entered FROM C through its bare address (no cdata reference on any stack) and drops
-            # itself while it runs
-            _, h, x, mode, route, new, fid = op
-            cb, sig, cyc = live[h]
-            addr = int(ffi.cast("uintptr_t", cb))
-            del cb
-            CTRL.update(fid=fid, h=h, mode=mode, new=new, ran=-1, new_addr=0)
-            sys.stderr.flush()
-            try:
-                fp = ffi.cast("int(*)(int)", addr)
-                r = lib.c29_call_i(fp, x) if route == "c" else fp(x)
-                outs.append(["selfdrop", CTRL["ran"], r, CTRL["new_addr"], h in live])
-            except Exception as e:
-                outs.append(["err", type(e).__name__])
-            CTRL["fid"] = None
-            CTRL["junk"] = None
-        elif k == "call":
-            _, h, x, route = op
-            cb, sig, cyc = live[h]
-            try:
-                fid, exact = invoke(lib, cb, sig, x, route)
-                outs.append(["fn", fid, exact])
-            except Exception as e:
-                outs.append(["err", type(e).__name__])
-            del cb
-        else:
-            raise ValueError(k)
         if len(outs) % 500 == 0:
             sys.stderr.write("OP %d\n" % len(outs))
             sys.stderr.flush()
